@@ -16,7 +16,9 @@ def run_one(d):
     t0 = time.time()
     name = os.path.basename(d)
     meta = json.load(open(os.path.join(d, "meta.json")))
-    props = sorted(meta.get("caught_by") or [meta["property"]])
+    cb = meta.get("caught_by") or {}
+    # checks recorded with an empty list ran but are not the owner of the broken clause (see the change's `needs_to_manifest`)
+    props = sorted(k for k, v in cb.items() if v) if isinstance(cb, dict) and any(cb.values()) else sorted(cb or [meta["property"]])
     tmp = tempfile.mkdtemp(prefix="rce-seeded-")
     try:
         wt = os.path.join(tmp, "repo")
